@@ -89,3 +89,31 @@ Print Assumptions C14_jbn_clone_equal.
 
 Example C14_jbn_clone_equal_ex : jbn_clone C14_doc = C14_doc /\ jbn_clone (JArr [JArr [JArr []; JI64 5]; JObj []]) = JArr [JArr [JArr []; JI64 5]; JObj []].
 Proof. split; vm_compute; reflexivity. Qed.
+
+(* look-ups depend only on the value, not on how the tree / the buffer was produced: whatever chain of jbn_clone,
+   jbl_to_node (decode), jbl_from_node (encode), jbl_clone, jbl_clone_into_pool leads from a document to a tree `t` and a
+   buffer `b` (tree_of / bin_of), jbn_at, jbn_at2, jbl_at, jbl_at2 answer on them what they answer on the document and
+   its encoding (and hence, by C14_at_agree, the RFC 6901 referent).  The model's tree is a value: storage facts of the C
+   tree (keys counted by klidx without a terminator when borrowed from a buffer) are outside it and are tied to the code
+   by the producer x consumer matrix of the check (T2), see notes/jbinn.md *)
+Theorem C14_at_producer_independent : forall v bs t b path ptr, wf v = true -> binn_encode v = Some bs ->
+  tree_of v bs t -> bin_of v bs b ->
+  at_tree t path = at_tree v path /\ at_tree2 t ptr = at_tree2 v ptr /\
+  at_binn b path = at_binn bs path /\ at_binn2 b ptr = at_binn2 bs ptr.
+Proof. exact at_producer_independent. Qed.
+Print Assumptions C14_at_producer_independent.
+
+Example C14_at_producer_independent_ex : exists bs b t,
+  binn_encode C14_doc = Some bs /\ binn_clone bs = Some b /\ binn_decode b = Some t /\
+  tree_of C14_doc bs (jbn_clone t) /\ bin_of C14_doc bs b /\
+  at_tree (jbn_clone t) [47; 97; 47; 50] = AtFound (JStr [104; 105]).
+Proof.
+  pose (bs := match binn_encode C14_doc with Some x => x | None => [] end).
+  exists bs, bs, C14_doc.
+  assert (E : binn_encode C14_doc = Some bs) by (vm_compute; reflexivity).
+  assert (C : binn_clone bs = Some bs) by (vm_compute; reflexivity).
+  assert (D : binn_decode bs = Some C14_doc) by (vm_compute; reflexivity).
+  assert (B : bin_of C14_doc bs bs) by (apply (BP_clone _ _ bs); [apply BP_self|exact C]).
+  split; [exact E|]. split; [exact C|]. split; [exact D|]. split; [|split; [exact B|vm_compute; reflexivity]].
+  apply TP_clone. apply (TP_decode _ _ bs); assumption.
+Qed.
